@@ -3,11 +3,15 @@ depend on the ground constants).
 
 Reads clause (E4) over the call-graph closure of everything that determines the
 currents: no attribute of a Medium is read, Medium.impedance is unreachable, and
-`media` is used only as `is None` / truthiness / `len`.  With Geobj.compute_ground's
+`media` is used only as `is None` / truthiness, and nothing that media-dependent code stores on the
+objects is read back by the current computation (taint frame).  With Geobj.compute_ground's
 contract (grounding depends on `media is None` only, unit C11/compute_ground) currents
 and impedances over any real ground are those over ideal ground.
-Not decided: convergence for sigma -> infinity, medium split, far-medium invariance
-(vectorised Fresnel branch); these are covered only by the bounded native sweep.
+Far-field side: two slices of the real-ground branch of compute_far_field run on 1x1 arrays with symbolic values:
+the reflection-point distance (unit compute_far_field-reflection-point) and the medium lookup (unit
+compute_far_field-medium-lookup); the split / further-medium clauses are lemmas over the lookup contract.
+Not decided: convergence for sigma -> infinity and the Fresnel coefficients themselves (complex square roots);
+these are covered only by the bounded native sweep.
 """
 import ast
 import z3
@@ -60,14 +64,78 @@ def t_reads(eng):
                     ok = True
                 elif isinstance(par, (ast.If, ast.UnaryOp, ast.BoolOp, ast.IfExp, ast.While)):
                     ok = True
-                elif isinstance(par, ast.Call) and isinstance(par.func, ast.Name) and par.func.id == 'len':
-                    ok = True
                 elif isinstance(par, ast.Call) and q == 'Geo_Container.compute_ground':
                     ok = True          # handed to Geobj.compute_ground, checked below
                 if not ok:
                     uses.append((q, x.lineno, ast.unparse(par)[:60]))
-    eng.oblige(n + 'media-used-only-as-None-test-truthiness-or-len', not uses, detail=str(uses))
+    eng.oblige(n + 'media-used-only-as-None-test-or-truthiness', not uses, detail=str(uses))
+    # no flow through the object state either: whatever is stored by code that looks inside the media list (its length,
+    # its elements, a Medium's fields) outside the closure is never read inside the closure
+    stored = media_dependent_writes(cg, F)
+    leak = {a: w[:3] for a, w in stored.items() if a in reads}
+    eng.oblige(n + 'nothing-stored-from-the-media-is-read-by-the-current-computation', not leak, detail=str(leak))
+    eng.oblige(n + 'media-dependent-writers-found', 'boundary' in stored and 'far_field' in stored, detail=str(sorted(stored)))
     eng.cover('reads')
+
+
+def _media_use_is_trivial(par):
+    if isinstance(par, ast.Compare) and all(isinstance(o, (ast.Is, ast.IsNot)) for o in par.ops):
+        return True
+    return isinstance(par, (ast.If, ast.UnaryOp, ast.BoolOp, ast.IfExp, ast.While))
+
+
+def media_dependent_writes(cg, F):
+    """attribute name -> [(function, line)] for every attribute store (or in-place mutation) that can depend on the
+    contents of the media list: all stores of a function outside F that uses `media` beyond None-test/truthiness, or of
+    a Medium method -- except in Mininec.__init__, where only the stores inside a statement whose test uses the media
+    non-trivially count (the constructor stores every argument, unconditionally, before anything looks at them)."""
+    out = {}
+
+    def nontrivial_uses(node):
+        parents = {}
+        for p in ast.walk(node):
+            for ch in ast.iter_child_nodes(p):
+                parents[id(ch)] = p
+        r = []
+        for x in ast.walk(node):
+            if isinstance(x, ast.Attribute) and x.attr == 'media' and isinstance(x.ctx, ast.Load) \
+                    and not _media_use_is_trivial(parents.get(id(x))):
+                r.append(x)
+        return r
+
+    def stores(node, q):
+        own = set()
+        if q.startswith('Medium.'):
+            # a Medium method storing into `self` or into an argument (set_next's other Medium) stores into a Medium:
+            # no Medium is reachable from the closure (obligation no-attribute-of-a-medium-is-read), so only stores
+            # into anything else count
+            own = {a.arg for a in node.args.args}
+        for x in ast.walk(node):
+            if isinstance(x, ast.Attribute) and isinstance(x.ctx, (ast.Store, ast.Del)):
+                if isinstance(x.value, ast.Name) and x.value.id in own:
+                    continue
+                out.setdefault(x.attr, []).append((q, x.lineno))
+            elif isinstance(x, ast.AugAssign) and isinstance(x.target, ast.Attribute):
+                out.setdefault(x.target.attr, []).append((q, x.lineno))
+            elif isinstance(x, ast.Subscript) and isinstance(x.ctx, ast.Store) and isinstance(x.value, ast.Attribute):
+                out.setdefault(x.value.attr, []).append((q, x.lineno))
+            elif isinstance(x, ast.Call) and isinstance(x.func, ast.Attribute) and isinstance(x.func.value, ast.Attribute) \
+                    and x.func.attr in ('append', 'add', 'extend', 'update', 'pop', 'insert', 'remove', 'clear', 'sort', 'setdefault'):
+                out.setdefault(x.func.value.attr, []).append((q, x.lineno))
+
+    for q, node in cg.funcs.items():
+        if q in F:
+            continue
+        if q == 'Mininec.__init__':
+            for st in ast.walk(node):
+                if isinstance(st, (ast.If, ast.While)) and nontrivial_uses(st.test):
+                    stores(st, q)
+                elif isinstance(st, ast.For) and nontrivial_uses(st.iter):
+                    stores(st, q)
+            continue
+        if q.startswith('Medium.') or nontrivial_uses(node):
+            stores(node, q)
+    return out
 
 
 def t_compute_ground(eng):
@@ -130,12 +198,355 @@ class _Tol(ast.NodeTransformer):
         return node
 
 
+class _ViaStoredField(ast.NodeTransformer):
+    """decide the doubling by a field that check_ground stores while looking at the number of media"""
+
+    def visit_If(self, node):
+        if 'self.media is not None' in ast.unparse(node.test):
+            node.test = ast.parse('pulse.ground.any () and self.ff_power').body[0].value
+        return node
+
+
 U_READS = Unit(P + '/reads', [], t_reads, SCHEMA, kind='frame',
                canaries=[Canary('load-weight-reads-conductivity', 'Mininec.compute_impedance_matrix_loads', _ReadSigma,
-                                [P + '/reads/'])])
+                                [P + '/reads/']),
+                         Canary('load-weight-reads-a-field-stored-by-media-dependent-code', 'Mininec.compute_impedance_matrix_loads',
+                                _ViaStoredField, [P + '/reads/nothing-stored'])])
 U_GROUND = Unit(P + '/Geobj.compute_ground', ['Geobj.compute_ground'], t_compute_ground,
                 {**SCHEMA, ('Geobj', 'p1'): 'vec3', ('Geobj', 'p2'): 'vec3'},
                 canaries=[Canary('ground-detection-one-sided', 'Geobj.compute_ground', _OneSided, [P + '/Geobj.compute_ground/end']),
                           Canary('ground-tolerance-1e-2', 'Geobj.compute_ground', _Tol, [P + '/Geobj.compute_ground/'])])
 
-UNITS = [U_READS, U_GROUND]
+
+
+# ---------------------------------------------------------------- reflection point of the real-ground branch
+def t_reflection_point(eng):
+    """slice of compute_far_field (real-ground branch): from `rt3 = ...` to the end of the `if self.boundary != 'linear'`
+    statement, for one direction and one pulse (1x1 arrays).  The distance that selects the medium is the distance of
+    the specular reflection point from the origin: x = px + t*cos(phi), y = py + t*sin(phi), t = pz*tan(theta)
+    (x alone for a linear boundary).  Direction cosines as the code holds them: rvec z-component = cos - j sin of the
+    zenith, acs = cos - j sin of the azimuth."""
+    n = P + '/compute_far_field[reflection point]/'
+    Q = 'Mininec.compute_far_field'
+    f = eng.get_fnode(Q)
+    start = None
+    body = None
+    for node in ast.walk(f):
+        for fld in ('body', 'orelse'):
+            lst = getattr(node, fld, None)
+            if isinstance(lst, list):
+                for k, st in enumerate(lst):
+                    if isinstance(st, ast.Assign) and ast.unparse(st.targets[0]) == 'rt3':
+                        start, body = k, lst
+    if body is None:
+        from pyvc.source import Unresolved
+        raise Unresolved('statement rt3 = ... in compute_far_field')
+    end = [k for k in range(start, len(body)) if isinstance(body[k], ast.If) and 'boundary' in ast.unparse(body[k].test)]
+    if not end:
+        from pyvc.source import Unresolved
+        raise Unresolved('if self.boundary != linear')
+    stmts = body[start:end[0] + 1]
+    m = SObj('Mininec', label='m')
+    circular = eng.choose(2) == 1
+    m.fields['boundary'] = AStr_lit('circular' if circular else 'linear')
+    cz, sz = fresh_real('cos_zen'), fresh_real('sin_zen')       # rvec[..., 2] = cos(zen) - j sin(zen)
+    ca, sa = fresh_real('cos_azi'), fresh_real('sin_azi')       # acs = cos(azi) - j sin(azi)
+    px, py, pz = fresh_real('px'), fresh_real('py'), fresh_real('pz')
+    pv = SObj('Pulse_Container', label='pv')
+    pv.fields['point'] = NDArr([[px, py, pz]])
+    rvrp = NDArr([[[CX(0, 0), CX(0, 0), CX(cz, r_neg(sz))]]])
+    acs = NDArr([CX(ca, r_neg(sa))])
+    env = {'self': m, 'rvrp': rvrp, 'pv': pv, 'acs': acs, 'a_i': 0}
+    eng.frames.append({'fref': eng.fref(Q), 'env': env, 'qual': Q, 'node': f})
+    try:
+        eng.exec_block(stmts, env)
+    finally:
+        eng.frames.pop()
+    eng.cover('reflection-%d' % circular)
+    b9 = env['b9']
+    while isinstance(b9, NDArr):
+        b9 = b9.data[0]
+    while isinstance(b9, list):
+        b9 = b9[0]
+    horizon = eng.decide(r_cmp('==', cz, 0))
+    # rt3.imag = -sin(zen): t4 = -pz * (-sin) / cos = pz * tan(zen); 1e5 at the horizon
+    t = Fraction(100000) if horizon else r_div(r_mul(pz, sz), cz)
+    x = r_add(px, r_mul(t, ca))
+    y = r_add(py, r_mul(t, sa))
+    if circular:
+        eng.oblige(n + 'circular-boundary:-distance-of-the-reflection-point-from-the-centre',
+                   b_and(r_cmp('>=', b9, 0), num_eq(r_mul(b9, b9), r_add(r_mul(x, x), r_mul(y, y)))))
+    else:
+        eng.oblige(n + 'linear-boundary:-x-coordinate-of-the-reflection-point', num_eq(b9, x))
+
+
+def AStr_lit(s):
+    from pyvc.engine import AStr
+    return AStr([('lit', s)])
+
+
+class _MirrorY(ast.NodeTransformer):
+    def visit_AugAssign(self, node):
+        if ast.unparse(node.target) == 'b9' and isinstance(node.op, ast.Add):
+            for c in ast.walk(node.value):
+                if isinstance(c, ast.UnaryOp) and isinstance(c.op, ast.USub):
+                    c.op = ast.UAdd()
+        return node
+
+
+class _LinearY(ast.NodeTransformer):
+    def visit_Assign(self, node):
+        if ast.unparse(node.targets[0]) == 'b9' and 'pv.point.T[0]' in ast.unparse(node.value).replace(' ', ''):
+            node.value = ast.parse(ast.unparse(node.value).replace('pv.point.T[0]', 'pv.point.T[1]')).body[0].value
+        return node
+
+
+U_REFL = Unit(P + '/compute_far_field-reflection-point', ['Mininec.compute_far_field'], t_reflection_point, SCHEMA,
+              slices={'Mininec.compute_far_field': 'real-ground branch, from `rt3 = ...` through the `if self.boundary != \'linear\'` statement; '
+                                                   'arrays fixed to one direction and one pulse; dropped: everything around it'},
+              notes='shape-bounded: arrays of one direction x one pulse; the statements are elementwise, values symbolic',
+              canaries=[Canary('reflection-point-mirrored-in-y', 'Mininec.compute_far_field', _MirrorY, [P + '/compute_far_field[reflection point]/circular']),
+                        Canary('linear-boundary-uses-y', 'Mininec.compute_far_field', _LinearY, [P + '/compute_far_field[reflection point]/linear'])])
+
+
+
+# ---------------------------------------------------------------- medium lookup by reflection point
+def _slice_between(eng, Q, first_target, last_target):
+    f = eng.get_fnode(Q)
+    for node in ast.walk(f):
+        for fld in ('body', 'orelse'):
+            lst = getattr(node, fld, None)
+            if not isinstance(lst, list):
+                continue
+            a = [k for k, st in enumerate(lst) if isinstance(st, ast.Assign) and ast.unparse(st.targets[0]) == first_target]
+            if not a:
+                continue
+            b = [k for k, st in enumerate(lst) if k >= a[0] and isinstance(st, ast.Assign)
+                 and ast.unparse(st.targets[0]) == last_target]
+            if b:
+                return f, lst[a[0]:b[0] + 1]
+    from pyvc.source import Unresolved
+    raise Unresolved('statements %s .. %s in %s' % (first_target, last_target, Q))
+
+
+def lookup_spec(b9, coords):
+    """index of the first medium whose outer boundary is not exceeded by the reflection distance"""
+    r = 0
+    for k in range(len(coords) - 1, -1, -1):
+        r = ite(r_cmp('<=', b9, coords[k]), k, r)
+    return r
+
+
+def t_medium_lookup(eng):
+    """slice of compute_far_field: from the statement after the reflection distance (`shp = list (b9.shape)`) to
+    `z45 = media_impedance [j2]`, one direction, one pulse, 1..3 media."""
+    n = P + '/compute_far_field[medium lookup]/'
+    Q = 'Mininec.compute_far_field'
+    f, stmts0 = _slice_between(eng, Q, 'rt3', 'z45')
+    k0 = [k for k, st in enumerate(stmts0) if isinstance(st, ast.Assign) and ast.unparse(st.targets[0]) == 'shp']
+    stmts = stmts0[k0[0]:]
+    M = eng.choose(3) + 1
+    b9 = fresh_real('b9')
+    coords = [fresh_real('coord%d' % k) for k in range(M)]
+    imps = [CX(fresh_real('zr%d' % k), fresh_real('zi%d' % k)) for k in range(M)]
+    # media chaining (Medium.set_next / check_ground): boundaries ascending, the last one is the 1e6 'infinity'
+    for a, b in zip(coords, coords[1:]):
+        eng.assume(r_cmp('<=', a, b))
+    eng.assume(num_eq(coords[-1], 1000000))
+    eng.assume(r_cmp('>=', b9, 0))
+    eng.assume(r_cmp('<=', b9, 1000000))
+    m = SObj('Mininec', label='m')
+    env = {'self': m, 'b9': NDArr([[b9]]), 'media_coord': NDArr(list(coords)), 'media_impedance': NDArr(list(imps))}
+    eng.frames.append({'fref': eng.fref(Q), 'env': env, 'qual': Q, 'node': f})
+    try:
+        eng.exec_block(stmts, env)
+    finally:
+        eng.frames.pop()
+    eng.cover('media-%d' % M)
+    j2 = env['j2']
+    z45 = env['z45']
+    j = j2.data[0][0]
+    z = z45.data[0][0]
+    sel = lookup_spec(b9, coords)
+    eng.oblige(n + 'selected-medium-is-the-first-whose-boundary-the-reflection-point-does-not-exceed', num_eq(j, sel))
+    zz = imps[-1]
+    for k in range(M - 2, -1, -1):
+        zz = ite(r_cmp('==', sel, k), imps[k], zz)
+    eng.oblige(n + 'surface-impedance-is-that-of-the-selected-medium', c_eq(to_cx(z), to_cx(zz)))
+    # the reflection point lies inside the selected medium: beyond every earlier boundary, within its own
+    inside = [b_or(b_not(r_cmp('==', sel, k)), b_and(r_cmp('<=', b9, coords[k]),
+              *([r_cmp('>', b9, coords[k - 1])] if k else []))) for k in range(M)]
+    eng.oblige(n + 'reflection-point-lies-inside-the-selected-medium', b_and(*inside))
+
+
+def t_lookup_lemmas(eng):
+    """lemmas over the lookup contract (pure): (a) a further medium whose boundary lies beyond the reflection point
+    changes neither the selected constants nor the height; (b) splitting medium s at a coordinate inside it into two
+    pieces with the constants and height of s changes neither."""
+    n = P + '/lemma: medium lookup/'
+    M = eng.choose(3) + 1
+    b9 = fresh_real('b9')
+    coords = [fresh_real('coord%d' % k) for k in range(M)]
+    cst = [fresh_real('const%d' % k) for k in range(M)]      # stands for (permittivity, conductivity, height) of medium k
+    for a, b in zip(coords, coords[1:]):
+        eng.assume(r_cmp('<=', a, b))
+    eng.assume(num_eq(coords[-1], 1000000))
+    eng.assume(r_cmp('>=', b9, 0))
+    eng.assume(r_cmp('<=', b9, 1000000))
+
+    def const_of(cs, ks, b):
+        s = lookup_spec(b, cs)
+        r = ks[-1]
+        for k in range(len(cs) - 2, -1, -1):
+            r = ite(r_cmp('==', s, k), ks[k], r)
+        return r
+    base = const_of(coords, cst, b9)
+    # (a) the last medium now ends at C (>= the reflection distance), a further medium follows to 'infinity'
+    C = fresh_real('C')
+    extra = fresh_real('const_extra')
+    eng.assume(r_cmp('>=', C, b9))
+    eng.assume(r_cmp('>=', C, coords[-2] if M > 1 else 0))
+    eng.assume(r_cmp('<=', C, 1000000))
+    ca = coords[:-1] + [C, Fraction(1000000)]
+    eng.oblige(n + 'further-medium-beyond-the-reflection-point-is-never-selected',
+               num_eq(const_of(ca, cst + [extra], b9), base))
+    # (b) split medium s at x
+    s = eng.choose(M)
+    x = fresh_real('split')
+    eng.assume(r_cmp('<=', x, coords[s]))
+    if s:
+        eng.assume(r_cmp('>=', x, coords[s - 1]))
+    cb = coords[:s] + [x] + coords[s:]
+    kb = cst[:s] + [cst[s]] + cst[s:]
+    eng.oblige(n + 'splitting-a-medium-into-two-pieces-with-its-constants-selects-the-same-constants',
+               num_eq(const_of(cb, kb, b9), base))
+    eng.cover('lemma-media-%d-split-%d' % (M, s))
+
+
+class _LookupGE(ast.NodeTransformer):
+    def visit_Compare(self, node):
+        if ast.unparse(node).replace(' ', '') == 'b9>tc':
+            node.ops = [ast.Lt()]
+        return node
+
+
+class _ImpedanceOfFirst(ast.NodeTransformer):
+    def visit_Assign(self, node):
+        if ast.unparse(node.targets[0]) == 'z45' and 'media_impedance' in ast.unparse(node.value):
+            node.value = ast.parse('media_impedance [j2 * 0]').body[0].value
+        return node
+
+
+U_LOOKUP = Unit(P + '/compute_far_field-medium-lookup', ['Mininec.compute_far_field'], t_medium_lookup, SCHEMA,
+                slices={'Mininec.compute_far_field': 'real-ground branch, from `shp = list (b9.shape)` through `z45 = media_impedance [j2]`; '
+                                                     'one direction, one pulse, 1..3 media (shape-bounded: the number of media is enumerated)'},
+                kind='bounded', notes='shape-bounded: arrays of one direction x one pulse, number of media enumerated 1..3; values symbolic',
+                canaries=[Canary('lookup-comparison-reversed', 'Mininec.compute_far_field', _LookupGE, [P + '/compute_far_field[medium lookup]/selected']),
+                          Canary('impedance-of-first-medium-always', 'Mininec.compute_far_field', _ImpedanceOfFirst, [P + '/compute_far_field[medium lookup]/surface'])])
+U_LOOKUP_LEMMA = Unit(P + '/lemma-medium-lookup', [], t_lookup_lemmas, SCHEMA, kind='lemma')
+
+
+
+# ---------------------------------------------------------------- radial screen and Fresnel coefficients
+def t_fresnel(eng):
+    """slice of compute_far_field: from `if nr != 0:` (radial screen) to `h89 = s89 / t89 - v89`, 1x1 arrays.
+    Contract (Z the surface impedance used, c - j s the direction's rt3, w = sqrt(1 - Z^2 s^2), Re w >= 0):
+      vertical   v = (c - w Z) / (c + w Z),   horizontal  h + v = (w - c Z) / (w + c Z);
+      with a radial screen the first medium's Z is the parallel combination of Z and j z8;
+    limit lemma on the same run: for Z = 0 (perfect conductor) v = 1 and h = 0 at every direction with c != 0,
+    the values the ideal-ground branch uses.  A vanishing denominator (non-finite numpy result) ends the path."""
+    n = P + '/compute_far_field[Fresnel]/'
+    Q = 'Mininec.compute_far_field'
+    f, stmts0 = _slice_between(eng, Q, 'rt3', 'h89')
+    k0 = [k for k, st in enumerate(stmts0) if isinstance(st, ast.If) and ast.unparse(st.test).replace(' ', '') == 'nr!=0']
+    if not k0:
+        from pyvc.source import Unresolved
+        raise Unresolved('if nr != 0 in compute_far_field')
+    stmts = stmts0[k0[0]:]
+    perfect = eng.choose(2) == 1
+    first = eng.choose(2) == 1
+    cz, sz = fresh_real('cos_zen'), fresh_real('sin_zen')
+    Z = CX(0, 0) if perfect else CX(fresh_real('Zr'), fresh_real('Zi'))
+    nr = fresh_int('nr')
+    rr = fresh_real('rr')
+    b9 = fresh_real('b9')
+    wv = fresh_real('w')
+    eng.assume(r_cmp('>=', nr, 0))
+    eng.assume(r_cmp('>', rr, 0))
+    eng.assume(r_cmp('>=', b9, 0))
+    eng.assume(r_cmp('>', wv, 0))
+    m = SObj('Mininec', label='m')
+    m.fields['w'] = wv
+    env = {'self': m, 'nr': nr, 'rr': rr, 'b9': NDArr([[b9]]), 'j2': NDArr([[0 if first else 1]]),
+           'z45': NDArr([[Z]]), 'rt3': NDArr([[CX(cz, r_neg(sz))]])}
+    eng.frames.append({'fref': eng.fref(Q), 'env': env, 'qual': Q, 'node': f})
+    try:
+        try:
+            eng.exec_block(stmts, env)
+        except PyRaise as ex:
+            if ex.cls == 'ZeroDivisionError':
+                eng.cover('vanishing-denominator')
+                return
+            raise
+    finally:
+        eng.frames.pop()
+    screen = eng.decide(r_cmp('!=', nr, 0))
+    eng.cover('fresnel-perfect-%d-first-%d-screen-%d' % (perfect, first, screen))
+    g = lambda a: to_cx(a.data[0][0])
+    zu, w, v, h = g(env['z45']), g(env['w671']), g(env['v89']), g(env['h89'])
+    c, s_ = CX(cz, 0), CX(sz, 0)
+    one = CX(1, 0)
+    # surface impedance used
+    if screen and first:
+        prod = r_mul(nr, rr)
+        r = r_add(b9, prod)
+        import pyvc.builtins as _B
+        z8 = r_div(r_mul(r_mul(wv, r), _B.np_log(eng, [r_div(r, prod)], {})), nr)
+        jz8 = CX(0, z8)
+        eng.oblige(n + 'radial-screen:-first-medium-impedance-in-parallel-with-the-screen',
+                   c_eq(c_mul(zu, c_add(Z, jz8)), c_mul(Z, jz8)))
+    else:
+        eng.oblige(n + 'no-screen-or-other-medium:-impedance-unchanged', c_eq(zu, Z))
+    eng.oblige(n + 'w-is-the-principal-root-of-1-Z^2-sin^2',
+               b_and(c_eq(c_mul(w, w), c_sub(one, c_mul(c_mul(zu, zu), c_mul(s_, s_)))), r_cmp('>=', w.re, 0)))
+    wz = c_mul(w, zu)
+    eng.oblige(n + 'vertical-coefficient', c_eq(c_mul(v, c_add(c, wz)), c_sub(c, wz)))
+    cz_ = c_mul(c, zu)
+    eng.oblige(n + 'horizontal-coefficient', c_eq(c_mul(c_add(h, v), c_add(w, cz_)), c_sub(w, cz_)))
+    if perfect:
+        eng.oblige(n + 'perfect-conductor-limit:-v=1,-h=0-(the-ideal-ground-values)', b_and(c_eq(v, one), c_eq(h, CX(0, 0))))
+
+
+class _FresnelSign(ast.NodeTransformer):
+    def __init__(self):
+        self.n = 0
+
+    def visit_Assign(self, node):
+        if ast.unparse(node.targets[0]) == 's89' and ast.unparse(node.value).replace(' ', '') == 'rt3.real-w67*z45':
+            node.value = ast.parse('rt3.real + w67 * z45').body[0].value
+        return node
+
+
+class _RootPlus(ast.NodeTransformer):
+    def visit_Assign(self, node):
+        if 'w671' in [ast.unparse(t) for t in node.targets]:
+            node.value = ast.parse(ast.unparse(node.value).replace('1 -', '1 +', 1)).body[0].value
+        return node
+
+
+class _HNotRelative(ast.NodeTransformer):
+    def visit_Assign(self, node):
+        if ast.unparse(node.targets[0]) == 'h89' and ast.unparse(node.value).replace(' ', '') == 's89/t89-v89':
+            node.value = ast.parse('s89 / t89').body[0].value
+        return node
+
+
+U_FRESNEL = Unit(P + '/compute_far_field-fresnel', ['Mininec.compute_far_field'], t_fresnel, SCHEMA,
+                 slices={'Mininec.compute_far_field': 'real-ground branch, from `if nr != 0:` through `h89 = s89 / t89 - v89`; '
+                                                      'one direction, one pulse'},
+                 kind='bounded', notes='shape-bounded: arrays of one direction x one pulse; the statements are elementwise, values symbolic',
+                 canaries=[Canary('vertical-numerator-sign', 'Mininec.compute_far_field', _FresnelSign, [P + '/compute_far_field[Fresnel]/vertical', P + '/compute_far_field[Fresnel]/perfect']),
+                           Canary('root-of-1+Z^2sin^2', 'Mininec.compute_far_field', _RootPlus, [P + '/compute_far_field[Fresnel]/w-is']),
+                           Canary('horizontal-not-relative-to-vertical', 'Mininec.compute_far_field', _HNotRelative, [P + '/compute_far_field[Fresnel]/horizontal', P + '/compute_far_field[Fresnel]/perfect'])])
+
+UNITS = [U_READS, U_GROUND, U_REFL, U_LOOKUP, U_LOOKUP_LEMMA, U_FRESNEL]
